@@ -287,6 +287,11 @@ func (p *printer) redir(r *ast.Redir) {
 		default:
 			p.space()
 		}
+	} else if r.Op == "<<" && len(r.Word) != 0 {
+		if w, ok := r.Word[0].(*ast.Lit); ok && len(w.Value) != 0 && w.Value[0] == '-' {
+			// "<<-" would be another operator
+			p.space()
+		}
 	}
 	p.word(r.Word)
 }
